@@ -11,6 +11,7 @@ shorter schedule, which is what the minimiser relies on).
     R resume / drop a suspended generator
     D canonical diff() loop on this actor      X tighten to exhaustion (never reading bounds)
     Q flip DEFAULT_PRINTER.quiet               Z read bounds() twice
+    F if is_complete() says True, list the sub-edits now and remember the listing (it must never change again)
 
 While a generator of edit X is suspended only descendants of X and unrelated actors are eligible (that is what
 graphtage itself does when it prints sub-edits while iterating the parent's edits()); touching X or an ancestor of X
@@ -34,7 +35,7 @@ from graphtage.tree import CompoundEdit  # noqa: E402
 DEFAULT_PRINTER = gtree.DEFAULT_PRINTER          # the one shared object tree.py / levenshtein.py / json.py hold
 assert glev.DEFAULT_PRINTER is DEFAULT_PRINTER and gjson.DEFAULT_PRINTER is DEFAULT_PRINTER
 
-OPS = ["B", "T", "C", "V", "N", "E", "K", "R", "D", "X", "Q", "Z"]
+OPS = ["B", "T", "C", "V", "N", "E", "K", "R", "D", "X", "Q", "Z", "F"]
 
 
 # ---------------------------------------------------------------------------------------------- workloads
@@ -509,6 +510,7 @@ class Session:
         self.steps = 0
         self.t_since_b = {}     # actor idx -> consecutive T without B (probe)
         self.n_answers = []     # (actor idx, answer of has_non_zero_cost()) in call order
+        self.frozen = []        # (actor idx, shallow listing taken when is_complete() answered True)
 
     def bump(self, k, n=1):
         self.counters[k] = self.counters.get(k, 0) + n
@@ -615,6 +617,16 @@ class Session:
                 self._pull(rec, arg % 4, drop=False)
             else:
                 self.log.add(self.steps, "K-skip", tag)
+        elif op == "F":
+            if isinstance(e, CompoundEdit) and hasattr(e, "is_complete") and e.is_complete():
+                kids = list(e.edits())
+                for k in kids:
+                    self.add_actor(k, a.idx)
+                self.frozen.append((a.idx, [shallow(k, self.paths) for k in kids]))
+                self.bump("probe.complete_listing_frozen")
+                self.log.add(self.steps, "F", tag, len(kids))
+            else:
+                self.log.add(self.steps, "F-skip", tag)
         elif op == "D":
             n = 0
             while e.valid and not e.is_complete() and e.tighten_bounds():
@@ -673,6 +685,16 @@ class Session:
         script = serialise(e, self.paths)
         return (b.lower_bound, b.upper_bound), script
 
+    def check_frozen_listings(self):
+        """is_complete() == True promises that further refinement will not change what edits() lists."""
+        for ai, snap in self.frozen:
+            e = self.actors[ai].edit
+            now = [shallow(x, self.paths) for x in e.edits()]
+            if now != snap:
+                raise Violation("complete-listing-changed", type(e).__name__,
+                                f"is_complete() answered True and edits() listed {snap}, but after further refinement "
+                                f"edits() lists {now} for {e!r:.200}")
+
     def check_non_zero_answers(self):
         """has_non_zero_cost() is a view of the final cost: whenever it was asked, its answer must be (final cost > 0)."""
         for ai, ans in self.n_answers:
@@ -718,10 +740,10 @@ def gen_opw(sc):
     opw = [["B", sc.uniform(0, 3)], ["T", sc.uniform(1, 6)], ["C", sc.uniform(0, 1)], ["V", sc.uniform(0, 1)],
            ["N", sc.uniform(0, 1)], ["E", sc.uniform(0.2, 2)], ["K", sc.uniform(0, 1.5)], ["R", sc.uniform(0, 1.5)],
            ["D", sc.uniform(0, 0.6)], ["X", sc.uniform(0, 0.4)], ["Q", sc.choice([0, 0, 0.3, 1.0])],
-           ["Z", sc.uniform(0, 0.5)]]
+           ["Z", sc.uniform(0, 0.5)], ["F", sc.uniform(0, 0.8)]]
     if sc.random() < 0.3:   # a run in which nobody ever looks
         for o in opw:
-            if o[0] in ("B", "Z", "C", "N", "D"):
+            if o[0] in ("B", "Z", "C", "N", "D", "F"):
                 o[1] = 0.0
     return [[o, round(w, 3)] for o, w in opw]
 
